@@ -87,9 +87,10 @@ def g_pieces_text(maxlen, positions=(0, 1, 2)):
     return out
 
 
-ATTR_ENTITIES = [("z", ""), ("t", "\t"), ("c", "\r\n&#10;"), ("n", "&t;\r"), ("d", "&#13;&#10;"), ("f", "\ufeffw")]
+ATTR_ENTITIES = [("z", ""), ("t", "\t"), ("c", "\r\n&#10;"), ("n", "&t;\r"), ("d", "&#13;&#10;"), ("f", "\ufeffw"),
+                 ("u", "&#xA0;&#x2003;&#x85;&#x2028;&#x3000;")]   # Unicode White_Space that is not XML white space: never normalised
 ATTR_PIECES = ["a", " ", "\t", "\n", "\r", "&#9;", "&#10;", "&#13;", "&#x20;", "&amp;", "Q", "\ufeff",
-               "&z;", "&t;", "&c;", "&n;", "&d;", "&f;"]
+               "&z;", "&t;", "&c;", "&n;", "&d;", "&f;", "&u;", "&#xA0;"]
 ATTR_DTD = "<!DOCTYPE r [" + "".join('<!ENTITY %s "%s">' % (n, v) for n, v in ATTR_ENTITIES) + "]>"
 
 
@@ -118,6 +119,42 @@ def g_pieces_attr_in_entity(maxlen):
             exp = spec.norm_attr(src, ents, depth=1)
             dtd = "<!DOCTYPE r [" + "".join('<!ENTITY %s "%s">' % (n, v) for n, v in ATTR_ENTITIES) + "<!ENTITY w \"<a k='" + src + "'/>\">]>"
             out.append(Case(dtd + "<r>&w;</r>", "c", True, meta={"gen": "pieces-attr-in-entity-element", "src": src, "expect_attr": exp}))
+    return out
+
+
+def g_pieces_attr_after(maxlen):
+    """attribute piece sequences on an element that FOLLOWS other constructs in the same content: state left behind by
+    text / entity expansion (depth counters, pending line ends, buffers) must not reach a later attribute"""
+    out = []
+    ents = dict(ATTR_ENTITIES)
+    pieces = [x for x in ATTR_PIECES if x != "Q"] + ["&lt;", "&#60;", "&#x3C;y"]
+    preludes = ["&z;", "&t;", "x&z;y", "&z;&z;", "<![CDATA[]]>", "&f;", "<b>&z;</b>", "<!--c-->&z;", "&#10;", "\r", "<b k2='&z;'/>", "&n;"]
+    for l in range(1, maxlen + 1):
+        for w in itertools.product(range(len(pieces)), repeat=l):
+            src = "".join(pieces[i] for i in w)
+            exp = spec.norm_attr(src, ents)
+            for pre in preludes:
+                if "k2=" in pre:
+                    continue
+                out.append(Case(ATTR_DTD + "<r>" + pre + "<e k='" + src + "'/></r>", "c", True,
+                                meta={"gen": "pieces-attr-after", "src": src, "prelude": pre, "expect_attr": exp}))
+    return out
+
+
+# entity names that start with, or are a prefix of, a predefined name (lt gt amp apos quot): a declared entity all the same
+LOOKALIKE_NAMES = ["lt2", "lte", "ltt", "gt1", "gte", "amp2", "ampersand", "quot2", "quote", "apos2", "apostrophe", "l", "g", "am",
+                   "quo", "apo", "lt.", "gt-", "amp_", "LT", "Amp"]
+
+
+def g_entity_names():
+    out = []
+    tab = [(n, "[%s]" % n) for n in LOOKALIKE_NAMES]
+    ents = dict(tab)
+    dtd = "<!DOCTYPE r [" + "".join("<!ENTITY %s '%s'>" % (n, v) for n, v in tab) + "]>"
+    for n in LOOKALIKE_NAMES:
+        for src in ("&%s;" % n, "1&lt;&%s;&amp;" % n, "&%s;&%s;&gt;" % (n, n)):
+            out.append(Case(dtd + "<r>" + src + "</r>", "nc", True, meta={"gen": "lookalike-name-text", "src": src, "expect_text": spec.decode_text(src, ents)}))
+            out.append(Case(dtd + "<r k='" + src + "'/>", "c", True, meta={"gen": "lookalike-name-attr", "src": src, "expect_attr": spec.norm_attr(src, ents)}))
     return out
 
 
@@ -678,4 +715,215 @@ def g_ent_competing(flags="nc"):
                           "expect_content": ["Q 1 - x72", "A 1 0 - x6b " + spec.hexs("1<2&3>4'5\"6"), "X 2 " + spec.hexs("a<b&c>d'e\"f")]}))
     out.append(Case("<!DOCTYPE r [" + pre + "<!ENTITY w 'x&lt;y&amp;z'>]><r>&w;</r>", flags, True,
                     meta={"gen": "predefined-declared-nested", "expect_content": ["Q 1 - x72", "X 2 " + spec.hexs("x<y&z")]}))
+    return out
+
+
+# ---------------------------------------------------------------------------------------------
+# families added after the fourteenth wave of seeded changes
+# ---------------------------------------------------------------------------------------------
+def g_dup_attr_wide(flags="c"):
+    """an attribute written twice among MANY attributes (the duplicate test of a wide start tag), on an element that
+    follows other elements with attributes of their own"""
+    out = []
+    for n in (2, 3, 15, 16, 17, 18, 32, 33, 40):
+        names = ["a%d" % i for i in range(n)]
+        for dup_of in sorted(set([0, n // 2, n - 1])):
+            for pos in sorted(set([dup_of + 1, n])):
+                attrs = names[:pos] + [names[dup_of]] + names[pos:]
+                tag = "<e " + " ".join("%s='%d'" % (a, i) for i, a in enumerate(attrs)) + "/>"
+                for pre in ("<root id='r'>", "<root>", "<root id='r' k='2'><x y='1' z='2'/>"):
+                    out.append(Case(pre + tag + "</root>", flags, True,
+                                    meta={"gen": "dup-attr-wide", "n": n, "illformed": "attribute %s specified twice among %d" % (names[dup_of], n + 1)}))
+        # the same width without a duplicate
+        tag = "<e " + " ".join("%s='%d'" % (a, i) for i, a in enumerate(names)) + "/>"
+        out.append(Case("<root id='r'>" + tag + "</root>", flags, True, meta={"gen": "no-dup-attr-wide", "n": n, "wellformed": "%d distinct attributes" % n}))
+    # duplicates by expanded name in a wide tag: two prefixes bound to one URI
+    for n in (3, 17, 20):
+        fill = " ".join("f%d='%d'" % (i, i) for i in range(n))
+        out.append(Case("<root id='r'><e xmlns:p='u' xmlns:q='u' %s p:k='1' q:k='2'/></root>" % fill, flags, True,
+                        meta={"gen": "dup-attr-wide-expanded", "n": n, "illformed": "two attributes with one expanded name among %d" % (n + 2)}))
+    return out
+
+
+def utf8_byte_chars():
+    """for every byte value that can occur in valid UTF-8 beyond ASCII, a character whose encoding contains it"""
+    chars = []
+    for b2 in range(0x80, 0xC0):
+        chars.append(chr(0x80 + (b2 - 0x80)))                 # C2 xx
+        chars.append(chr(0x400 + (b2 - 0x80)))                # D0 xx
+    for lead in range(0xC2, 0xE0):
+        chars.append(chr((lead & 0x1F) << 6 | 0x21))
+    for lead in range(0xE0, 0xF0):
+        cp = (lead & 0x0F) << 12 | (0x20 << 6 if lead == 0xE0 else 0) | 0x2A
+        if lead == 0xED:
+            cp = 0xD000 | 0x2A
+        chars.append(chr(cp))
+    for lead in range(0xF0, 0xF5):
+        cp = (lead & 0x07) << 18 | (0x10 << 12 if lead == 0xF0 else 0) | 0x2A
+        if lead == 0xF4:
+            cp = 0x100000 | 0x2A
+        chars.append(chr(cp))
+    seen, out = set(), []
+    for c in chars:
+        if c not in seen and 0xD800 > ord(c) or ord(c) > 0xDFFF:
+            if c not in seen:
+                seen.add(c)
+                out.append(c)
+    return out
+
+
+def g_utf8_bytes(flags="ncb"):
+    """one non-ASCII character per value (text, attribute, comment, PI, CDATA): nothing to normalise, so the stored strings are
+    the input's own bytes; a byte-wise scan that confuses a continuation byte with a special ASCII byte shows here"""
+    out = []
+    for c in utf8_byte_chars():
+        if ord(c) in (0x85, 0x2028):
+            pass
+        doc = "<r a='%sble' b=\"x%s\">t%su<!--%s--><?p %s?><![CDATA[%s]]></r>" % (c, c, c, c, c, c)
+        out.append(Case(doc, flags, True, meta={"gen": "utf8-byte", "cp": ord(c)}))
+    return out
+
+
+def g_cr_in_misc(flags="ncb"):
+    """CR and CR LF inside comments and PI values -- the exact source strings, stored as slices (no line-end normalisation
+    there) -- in the prolog, in content, in the internal subset and inside an entity value"""
+    out = []
+    for le in ("\r", "\r\n", "\n\r", "\r\r"):
+        c = "<!--a%sb-->" % le
+        p = "<?p a%sb?>" % le
+        for doc in (c + "<r/>", "<r>" + c + "</r>", "<r/>" + c, p + "<r/>", "<r>x" + p + "y</r>", "<r/>" + p,
+                    "<!DOCTYPE r [" + c + p + "]><r/>", "<!DOCTYPE r [<!ENTITY e '" + c + p + "'>]><r>&e;</r>",
+                    "<!DOCTYPE r [<!ENTITY e 'u" + c + "v'>]><r>1&e;2</r>"):
+            out.append(Case(doc, flags, True, meta={"gen": "cr-in-comment-pi"}))
+    return out
+
+
+def g_prefix_out_of_scope(flags="c"):
+    """a prefix used after the element that declared it has ended: undeclared there, whatever was resolved before"""
+    out = []
+    bad = [
+        "<r><a xmlns:p='urn:x'><p:b/></a><p:c/></r>",
+        "<r><a xmlns:p='urn:x'><p:b/></a><c p:k='1'/></r>",
+        "<r><a xmlns:p='urn:x' p:k='1'/><b p:k='2'/></r>",
+        "<r><p:a xmlns:p='urn:x'/><p:a/></r>",
+        "<r><a xmlns:p='urn:x'><p:b/><p:b/></a>t<p:b/></r>",
+        "<r><a xmlns:p='u'><b><p:c/></b></a><d><p:c/></d></r>",
+        "<!DOCTYPE r [<!ENTITY e \"<a xmlns:p='u'><p:b/></a>\">]><r>&e;<p:c/></r>",
+        "<!DOCTYPE r [<!ENTITY e '<p:b/>'>]><r><a xmlns:p='u'>&e;</a>&e;</r>",
+        "<r><a xmlns:p='u'><p:b/></a><a xmlns:q='u'><p:b/></a></r>",
+    ]
+    for d in bad:
+        out.append(Case(d, flags, True, meta={"gen": "prefix-out-of-scope", "illformed": "prefix used outside the scope of its declaration"}))
+    good = [
+        "<r><a xmlns:p='urn:x'><p:b/></a><a xmlns:p='urn:y'><p:c/></a></r>",
+        "<r xmlns:p='u0'><a xmlns:p='urn:x'><p:b/></a><p:c/></r>",
+        "<!DOCTYPE r [<!ENTITY e '<p:b/>'>]><r><a xmlns:p='u'>&e;</a><a xmlns:p='v'>&e;</a></r>",
+    ]
+    for d in good:
+        out.append(Case(d, flags, True, meta={"gen": "prefix-rebound", "wellformed": "prefix declared again where it is used"}))
+    return out
+
+
+def g_entity_value_chars(flags="nc"):
+    """boundary characters of the Char production written LITERALLY inside an otherwise ASCII entity value (and with a
+    non-ASCII neighbour), used in content and in an attribute value"""
+    out = []
+    for cp in (0x20, 0x21, 0x7E, 0x7F, 0x80, 0x84, 0x85, 0x86, 0x9F, 0xA0, 0xFF, 0x7FF, 0x800, 0xD7FF, 0xE000, 0xFFFD, 0x10000, 0x10FFFF):
+        ch = chr(cp)
+        for val in ("a" + ch + "b", ch, ch + "é"):
+            ents = {"e": val}
+            dtd = "<!DOCTYPE r [<!ENTITY e '%s'>]>" % val
+            out.append(Case(dtd + "<r>&e;</r>", flags, True, meta={"gen": "entity-value-char-text", "cp": cp, "src": "&e;", "expect_text": spec.decode_text("&e;", ents)}))
+            out.append(Case(dtd + "<r k='&e;'/>", "c", True, meta={"gen": "entity-value-char-attr", "cp": cp, "src": "&e;", "expect_attr": spec.norm_attr("&e;", ents)}))
+    return out
+
+
+def g_cdata_tricky_nonchar(flags="t"):
+    """a character outside Char AFTER a place where a scanner restarts: lone ']' / ']]' in CDATA, '-' in a comment, '?' in a
+    PI, a reference in text or in a value, on the first and on a later line, after multi-byte characters"""
+    out = []
+    bads = ["\x01", "\x0b", "￾", "￿"]
+    pres = ["a[0]", "]", "]]", "]>", "a]b]]c", "é]", "x]\ny", "]\n\n", "a[0]\nb"]
+    for bad in bads[:2] + bads[2:3]:
+        for pre in pres:
+            out.append(Case("<?xml version=\"1.0\"?><r><![CDATA[" + pre + bad + "c]]></r>", flags, True, meta={"gen": "nonchar-after-bracket-cdata"}))
+            out.append(Case("<r>\n<![CDATA[" + pre + "]]><![CDATA[" + pre + bad + "]]></r>", flags, True, meta={"gen": "nonchar-after-bracket-cdata2"}))
+        for pre in ("a-b", "-", "a - b\n- c", "é-"):
+            out.append(Case("<r><!--" + pre + bad + "--></r>", flags, True, meta={"gen": "nonchar-after-dash-comment"}))
+        for pre in ("a?b", "?", "a ?\n>", "é?"):
+            out.append(Case("<r><?p " + pre + bad + "?></r>", flags, True, meta={"gen": "nonchar-after-qm-pi"}))
+        for pre in ("&amp;", "a&#10;b", "&lt;\n", "]]", "]"):
+            out.append(Case("<r>" + pre + bad + "</r>", flags, True, meta={"gen": "nonchar-after-ref-text"}))
+            out.append(Case("<r k='" + pre.replace("&lt;", "&gt;") + bad + "'/>", flags, True, meta={"gen": "nonchar-after-ref-attr"}))
+        for lit in ("SYSTEM \"a%s.dtd\"", "SYSTEM\n \"a%s\"", "PUBLIC \"p\" \"a%s\"", "PUBLIC 'p'\n\n  'abé%s'"):
+            out.append(Case("<!DOCTYPE r " + (lit % bad) + "><r/>", flags, True, meta={"gen": "nonchar-in-system-literal"}))
+            out.append(Case("<!DOCTYPE r [<!ENTITY x " + (lit % bad) + ">]><r/>", flags, True, meta={"gen": "nonchar-in-entity-system-literal"}))
+    return out
+
+
+def g_same_ns_many(flags="c", counts=(65535, 65536, 65537, 70000)):
+    """ONE namespace declared again on 2^16 and more elements, under a prefix that sorts after 'xml' and under one that
+    sorts before it: the limit counts distinct namespaces, not declarations"""
+    out = []
+    for k in counts:
+        for pfx in ("z", "xsi", "a"):
+            body = ("<%s:i xmlns:%s='http://www.w3.org/2001/XMLSchema-instance' %s:a='1'/>" % (pfx, pfx, pfx)) * k
+            out.append(Case("<r>" + body + "</r>", flags, True, meta={"gen": "same-namespace-many", "k": k, "prefix": pfx, "wellformed": "one distinct namespace declared %d times" % k}))
+    return out
+
+
+def g_ns_entity_sibling(flags="nc"):
+    """an element from an entity's replacement text declares a namespace; the sibling that follows the reference declares the
+    same prefix (or the default namespace) again: two different elements, so no duplicate"""
+    out = []
+    docs = [
+        "<!DOCTYPE r [<!ENTITY e \"<b xmlns:p='u1'/>\">]><r>&e;<c xmlns:p='u2'/></r>",
+        "<!DOCTYPE r [<!ENTITY e \"<b xmlns='u1'/>\">]><r>&e;<c xmlns='u2'/></r>",
+        "<!DOCTYPE r [<!ENTITY e \"<b xmlns:p='u1'/>\">]><r>&e;<c xmlns:p='u1'/></r>",
+        "<!DOCTYPE r [<!ENTITY e \"<b xmlns:p='u1'><p:i/></b>\">]><r>&e;&e;<p:c xmlns:p='u2' p:k='1'/></r>",
+        "<!DOCTYPE r [<!ENTITY e \"<b xmlns:p='u1' xmlns='d1'/>\"><!ENTITY f 'x&e;y'>]><r>&f;<c xmlns='d2' xmlns:p='u2'/></r>",
+        "<!DOCTYPE r [<!ENTITY e \"<b xmlns:p='u1'/>\">]><r xmlns:q='w'><a>&e;</a><c xmlns:p='u2' xmlns:q='w2'/></r>",
+        "<!DOCTYPE r [<!ENTITY e \"t<b xmlns:p='u1'/>t\">]><r>&e;<c xmlns:p='u2'>&e;<d xmlns:p='u3'/></c></r>",
+    ]
+    for d in docs:
+        out.append(Case(d, flags, True, meta={"gen": "ns-entity-sibling", "wellformed": "namespace declared inside an entity's element and again on the following sibling"}))
+    return out
+
+
+def g_ent_many_decls(flags="c", dists=(256, 512)):
+    """a chain through two entities whose declaration indices differ by a power of two (index truncation in a detector that
+    remembers WHICH entities are open), in a subset with hundreds of declarations"""
+    out = []
+    for dist in dists:
+        n = dist + 44
+        for i in (0, 3, 43):
+            decls = []
+            for k in range(n):
+                if k == i:
+                    decls.append(("e%d" % k, "[&e%d;]" % (k + dist)))
+                else:
+                    decls.append(("e%d" % k, "v%d" % k))
+            exp = "[v%d]" % (i + dist)
+            out.append(Case(ent_doc(decls, "<r>&e%d;</r>" % i), flags, True, meta={"gen": "many-decls-text", "dist": dist, "i": i, "expect": "ok", "expect_value": exp}))
+            out.append(Case(ent_doc(decls, "<r a='&e%d;'/>" % i), flags, True, meta={"gen": "many-decls-attr", "dist": dist, "i": i, "expect": "ok", "expect_value": exp}))
+    return out
+
+
+def g_ent_fanout_sep(fs, ds, flags="c"):
+    """billion laughs in which every level starts with a reference to an entity whose value is ONE character reference
+    (or one character): the separator is an entity expansion like any other, the limits apply unchanged"""
+    out = []
+    for sep_val, sep_len in (("&#160;", 2), ("&#65;", 1), ("s", 1), ("", 0)):
+        for f in fs:
+            for d in ds:
+                decls = [("sep", sep_val), ("l0", "z" * 8)] + [("l%d" % i, "&sep;" + ("&l%d;" % (i - 1)) * f) for i in range(1, d + 1)]
+                # references below the top-level one: per level-i expansion 1 (&sep;) + f; number of level-i expansions f^(d-i)
+                nested = sum((f ** (d - i)) * (1 + f) for i in range(1, d + 1))
+                ok = (d + 1 <= 10) and (nested <= 255)
+                exp_len = 8 * f ** d + sep_len * sum(f ** (d - i) for i in range(1, d + 1))
+                for use in ("text", "attr"):
+                    body = "<r>&l%d;</r>" % d if use == "text" else "<r a='&l%d;'/>" % d
+                    out.append(Case(ent_doc_dq(decls, body), flags, True,
+                                    meta={"gen": "fanout-sep-" + use, "f": f, "d": d, "sep": sep_val,
+                                          "expect": "ok" if ok else "EntityReferenceLoop", "expect_len": exp_len if ok else None}))
     return out
